@@ -117,15 +117,18 @@ Proof.
   - right. apply in_or_app. left. apply subterms_self.
 Qed.
 
-Theorem sub_dec_correct E a b : sub_dec E a b = true <-> Sub E a b.
+(* deciding by the greatest fixed point over ANY finite set that contains the pair and is closed under premises *)
+Theorem gfp_decides E (U : list pair) a b :
+  In (a, b) U ->
+  (forall p, In p U -> forall qs, rule E p = VPrem qs -> forall q, In q qs -> In q U) ->
+  (mem pair pair_eqb (gfp pair pair_eqb (stepb E) U) (a, b) = true <-> Sub E a b).
 Proof.
-  unfold sub_dec. rewrite (mem_In pair pair_eqb pair_eqb_spec). split.
-  - intros Hin. exists (fun p => In p (gfp pair pair_eqb (stepb E) (universe E a b))). split; [exact Hin|].
-    intros p Hp. exists (mem pair pair_eqb (gfp pair pair_eqb (stepb E) (universe E a b))). split.
+  intros HabU Hclosed. rewrite (mem_In pair pair_eqb pair_eqb_spec). split.
+  - intros Hin. exists (fun p => In p (gfp pair pair_eqb (stepb E) U)). split; [exact Hin|].
+    intros p Hp. exists (mem pair pair_eqb (gfp pair pair_eqb (stepb E) U)). split.
     + intros q Hq. apply (mem_In pair pair_eqb pair_eqb_spec). exact Hq.
     + apply gfp_consistent. exact Hp.
   - intros [R [Hab HR]].
-    set (U := universe E a b).
     apply (gfp_greatest pair pair_eqb pair_eqb_spec (stepb E) (stepb_mono E) (fun p => R p /\ In p U) U).
     + intros x [Hx HxU]. split; [exact HxU|].
       destruct (HR x Hx) as [S [HS HF]].
@@ -133,10 +136,28 @@ Proof.
       * intros q Hq. apply andb_true_iff in Hq as [H1 H2]. split; [apply HS, H1|].
         apply (mem_In pair pair_eqb pair_eqb_spec). exact H2.
       * unfold stepb in *. apply apply_rule_local; [|exact HF].
-        intros qs Hqs q Hq. apply (mem_In pair pair_eqb pair_eqb_spec). apply in_universe.
-        destruct x as [xa xb]. apply in_universe in HxU. destruct HxU as [Hxa Hxb]. cbn [fst snd] in Hxa, Hxb.
-        exact (rule_premises E [a; b] xa xb qs Hxa Hxb Hqs q Hq).
-    + split; [exact Hab|]. apply in_universe. apply roots_in_nodes.
+        intros qs Hqs q Hq. apply (mem_In pair pair_eqb pair_eqb_spec). eapply Hclosed; eauto.
+    + split; [exact Hab|exact HabU].
+Qed.
+
+Theorem sub_dec_correct E a b : sub_dec E a b = true <-> Sub E a b.
+Proof.
+  unfold sub_dec. apply gfp_decides.
+  - apply in_universe. apply roots_in_nodes.
+  - intros [xa xb] HxU qs Hqs q Hq. apply in_universe. apply in_universe in HxU. destruct HxU as [Hxa Hxb].
+    cbn [fst snd] in Hxa, Hxb. exact (rule_premises E [a; b] xa xb qs Hxa Hxb Hqs q Hq).
+Qed.
+
+Theorem sub_dec_fast_correct E a b : sub_dec_fast E a b = true <-> Sub E a b.
+Proof.
+  unfold sub_dec_fast.
+  set (U := reach (reach_fuel E a b) E [(a, b)] []).
+  destruct (closedb E U && mem pair pair_eqb U (a, b)) eqn:Hc; [|apply sub_dec_correct].
+  apply andb_true_iff in Hc as [Hcl Hm]. apply gfp_decides.
+  - apply (mem_In pair pair_eqb pair_eqb_spec). exact Hm.
+  - intros p Hp qs Hqs q Hq. unfold closedb in Hcl. rewrite forallb_forall in Hcl.
+    specialize (Hcl p Hp). unfold prems in Hcl. rewrite Hqs in Hcl. rewrite forallb_forall in Hcl.
+    apply (mem_In pair pair_eqb pair_eqb_spec). apply Hcl. exact Hq.
 Qed.
 
 (* ---------- basic meta-theory of the relation ---------- *)
